@@ -8,9 +8,10 @@ import re
 
 from . import common
 from . import pure
+from . import c17k
 
 PROOFS = ["proofs/AtomicsProofs.v", "proofs/MutexWordProofs.v", "proofs/MutexExclProofs.v", "proofs/MutexAcctProofs.v",
-          "models/Atomics.v", "models/MutexWord.v"]
+          "models/Atomics.v", "models/MutexWord.v", "models/MutexObs.v", "proofs/MutexObsProofs.v"]
 
 M64 = 1 << 64
 MIN64 = -(1 << 63)
@@ -247,6 +248,8 @@ def gen(chk, tier):
     for _ in range(300 if quick else 20000):
         cw.add(rng.below(1 << 31))
     streams.append(("count-words", ["c17c w=%d" % w for w in sorted(cw)] + ["c17n"]))
+    # (h) Count / IsLocked / IsWoken / IsStarving as stepped calls (word rewritten before every load)
+    streams += c17k.gen(chk, tier, list(ws) + [1 << 30, (1 << 31) - 1, 10, 9, 17])
     return streams
 
 
@@ -306,6 +309,8 @@ def compare(case, model, impl):
     if model == impl:
         return None
     tag = case.split()[0]
+    if tag == "c17k":
+        return c17k.compare(case, model, impl)
     if tag == "c17s":
         return None  # implementation-side stream (monitors only)
     if tag == "c17a":
@@ -327,6 +332,8 @@ def compare(case, model, impl):
 
 def nontrivial(case, model):
     tag = case.split()[0]
+    if tag == "c17k":
+        return c17k.nontrivial(case, model)
     if tag == "c17a":
         pm = parse_a(model)
         if pm is None:
@@ -353,6 +360,8 @@ def monitor(case, impl):
     tag = case.split()[0]
     if impl.startswith("PANIC") or impl == "BADCASE":
         return ("crash", "harness/handler failure: " + impl[:200])
+    if tag == "c17k":
+        return c17k.monitor(case, impl)
     if tag == "c17a":
         return monitor_a(case, impl)
     if tag == "c17t":
@@ -572,6 +581,14 @@ def canary(chk, binary):
         chk.diverge("canary", "c17c w=17 / w=8", str(orig), str(impl),
                     "the pre-fix Count model (MxOrig) agrees with the implementation on its refutation witnesses: "
                     "either the fix 8216f43 was reverted or the comparison cannot tell right from wrong")
+    # the two-load Count (models/MutexObs.v MxoTwoLoads) must disagree with the code on its refutation witnesses
+    kc = ["c17k op=count w=10,1", "c17k op=count w=1,10"]
+    impl = common.run_impl(binary, kc)
+    two = common.run_model([c.replace("c17k ", "c17k var=two ") for c in kc])
+    if any(a == b for a, b in zip(impl, two)):
+        chk.diverge("canary", "; ".join(kc), str(two), str(impl),
+                    "the two-load Count model (MxoTwoLoads) agrees with the implementation on a refutation witness: "
+                    "Count no longer reads the state word once, or the stepped comparison cannot tell")
 
 
 TRUSTED = [
